@@ -54,6 +54,8 @@ type Node struct {
 	// MutedUntil: what the node publishes (own blocks, commits, forwarded gossip) reaches nobody until this instant
 	// (one-way trouble: it still hears everybody and answers requests)
 	MutedUntil time.Duration
+	// SaveTempAsked: ids of the blocks whose removal the synchronization asked to keep as temporary blocks
+	SaveTempAsked map[string]bool
 	Keys        []*Validator // validators this node generates for
 	Log         *ringLogger
 	Starts      int
@@ -166,6 +168,12 @@ func (n *Node) Start() (err error) {
 	if err := n.Exec.Init(&consensus.ExecuterInitParam{CTX: ctx, Logger: n.Log, Database: n.BlockchainDB, GenesisBlock: n.P.Genesis}); err != nil {
 		return fmt.Errorf("executer init: %w", err)
 	}
+	n.SaveTempAsked = map[string]bool{}
+	n.Exec.VerifObserveSyncDeletes(func(b *blockchain.Block, saveTemp bool) {
+		if saveTemp {
+			n.SaveTempAsked[string(b.Header.ID)] = true
+		}
+	})
 	if err := n.Pool.Init(ctx, n.Log, n.BlockchainDB, n.Chain, n.Conn, n.ABI); err != nil {
 		return err
 	}
